@@ -9,7 +9,6 @@ import vlib
 PID = "C01"
 THEOREMS = ["c01_registry_correct", "c01_monitor_meaning", "c01_eventually_always_reading",
             "c01_observations_are_the_predicate_values"]
-GEN = os.path.join(vlib.COQ, "gen")
 MODS = ["always", "never", "not always", "eventually", "always eventually",
         "eventually always", "once", "twice", "thrice", "at most once"]
 MOD_CTORS = ["Always", "Never", "NotAlways", "Eventually", "AlwaysEventually",
@@ -67,8 +66,8 @@ def translate(bins):
     else:
         NOTES["source_translator"] = "gofsm2v (go/ast over pred_fsm.go) renders the same tables as the run-time registry"
     with vlib.flock("gen-c01"):
-        vlib.write_if_changed(os.path.join(GEN, "FsmTables.v"), out)
-        rc, cout = vlib.coqc(os.path.join(GEN, "FsmTables.v"), timeout=300)
+        vlib.write_if_changed(os.path.join(vlib.gen_dir(), "FsmTables.v"), out)
+        rc, cout = vlib.coqc(os.path.join(vlib.gen_dir(), "FsmTables.v"), timeout=300)
         if rc != 0:
             return False, cout
     return True, out
@@ -76,8 +75,8 @@ def translate(bins):
 
 def obligations():
     with vlib.flock("gen-c01"):
-        vlib.write_if_changed(os.path.join(GEN, "Obl_C01.v"), OBL)
-        rc, out = vlib.coqc(os.path.join(GEN, "Obl_C01.v"), timeout=600)
+        vlib.write_if_changed(os.path.join(vlib.gen_dir(), "Obl_C01.v"), OBL)
+        rc, out = vlib.coqc(os.path.join(vlib.gen_dir(), "Obl_C01.v"), timeout=600)
     closed = "Closed under the global context" in out
     return rc == 0 and closed, out
 
@@ -212,7 +211,7 @@ def run(tier, seed):
                          "periods_with_disappointment": summary["periods_with_disappointment"],
                          "accepted_names": summary["accepted"]},
         "traces_validated_against_impl": summary["period"] + summary["raw"],
-        "translated_tables_file": os.path.join(GEN, "FsmTables.v"),
+        "translated_tables_file": os.path.join(vlib.gen_dir(), "FsmTables.v"),
     })
     if rc != 0 or any(v is None for v in vals.values()):
         res.violation(None, "correspondence cases did not evaluate",
